@@ -19,7 +19,7 @@ from vlib.recognisers import IN, OUT, UNSPEC
 PROPERTY = 'C16'
 LEVEL = 'exploration'
 SHARDS = {'quick': 4, 'thorough': 16}
-TIME_BUDGET = {'quick': 45, 'thorough': 600}
+TIME_BUDGET = {'quick': 150, 'thorough': 700}
 TECHNIQUE = ('runtime monitoring of the real validators at every entry point against independent hand-written '
              'three-valued recognisers (differential accept/reject + stored-value + re-encode oracles), '
              'grammar-based member / one-edit near-miss workload')
@@ -100,6 +100,7 @@ def _required():
 REQUIRED = _required()
 
 MISSING = '<nothing stored>'
+NEWLINE_FAMILIES = ('labels', 'tags', 'names')      # validator sites that anchor a pattern with '$'
 
 
 # ======================================================================================== environment
@@ -491,7 +492,7 @@ def judge(ctx, fam, subject, keybase, rawfn, fn, case, accepted, stored, exc, re
     same = accepted and _same(stored, value)
     if v == OUT and accepted:
         if same:
-            if only_member_newline(rawfn, fn, value, aslist):
+            if fam in NEWLINE_FAMILIES and only_member_newline(rawfn, fn, value, aslist):
                 d = ctx.info.setdefault('newline_accepted', {})
                 k = f'{fam}:{subject}:{case["entry"]}'
                 d[k] = d.get(k, 0) + 1
